@@ -997,6 +997,14 @@ class VerifyingAdapterLookup(AdapterLookupBase, VerifyingBase):
         registry = self._registry
         registry.ro = ro.ro(registry)
         super().changed(originally_changed)
+        # This can run in a thread that is merely looking something up
+        # while another thread re-bases a registry of the chain. Don't
+        # let an order computed from the old bases be the one that stays.
+        current = ro.ro(registry)
+        while registry.ro != current:
+            registry.ro = current
+            super().changed(originally_changed)
+            current = ro.ro(registry)
 
 
 @implementer(IAdapterRegistry)
